@@ -96,11 +96,13 @@ class Facts:
             lock.close()
 
     def _gc(self):
-        # keep the 6 most recent tree keys
+        # keep the most recent tree keys (6; the corpus runners work on many trees at once and ask for more, so that a tree's
+        # facts are not evicted while its twenty checks are still running)
+        keep = int(os.environ.get("VERIF_FACTS_KEEP", "6") or 6)
         base = os.path.join(CACHE, "facts")
         ents = [os.path.join(base, d) for d in os.listdir(base) if os.path.isdir(os.path.join(base, d))]
         ents.sort(key=lambda p: os.path.getmtime(p), reverse=True)
-        for p in ents[6:]:
+        for p in ents[keep:]:
             sh(["rm", "-rf", p])
 
     def _run_wirex(self):
